@@ -59,8 +59,11 @@ func (db *DB) compact(sourceSeg *segment) (CompactionResult, error) {
 
 	verifYield("compact.seal")
 	db.mu.Lock()
-	sourceSeg.meta.Full = true // Prevent writes to the compacted file.
+	err := db.datalog.seal(sourceSeg) // Prevent writes to the compacted file.
 	db.mu.Unlock()
+	if err != nil {
+		return cr, err
+	}
 
 	it, err := newSegmentIterator(sourceSeg)
 	if err != nil {
